@@ -62,6 +62,7 @@ def main():  # noqa: PLR0912, PLR0915
     ap.add_argument("--tier", default=os.environ.get("VERIF_TIER", "quick"))
     ap.add_argument("--replay")
     ap.add_argument("--jobs", type=int, default=min(16, os.cpu_count() or 4))
+    ap.add_argument("--rebaseline", action="store_true", help="record which contracts are fully discharged on this (reference) tree")
     a = ap.parse_args()
     if a.replay:
         os.execv("/venv/bin/python", ["/venv/bin/python", a.replay])
@@ -100,6 +101,18 @@ def main():  # noqa: PLR0912, PLR0915
         results = r1.get()
         mon_results = r2.get()
 
+    if a.rebaseline:
+        path = os.path.join(HERE, "baseline_obligations.json")
+        try:
+            with open(path, encoding="utf-8") as fd:
+                base = json.load(fd)
+        except OSError:
+            base = {}
+        for r in results:
+            base[r["contract"]] = {"status": r["status"], "obligations": r["obligations"], "tier": tier}
+        with open(path, "w", encoding="utf-8") as fd:
+            json.dump(base, fd, indent=1, sort_keys=True)
+        print(f"baseline ledger updated for {len(results)} contracts of {prop}")
     os.makedirs(os.path.join(HERE, "replays"), exist_ok=True)
     os.makedirs(os.path.join(HERE, "evidence"), exist_ok=True)
     violations = []  # (what, replay path, tail)
@@ -239,12 +252,14 @@ def main():  # noqa: PLR0912, PLR0915
 
 
 def baseline_has(prop, contract, obligation):
+    """True when the committed ledger records this contract as fully discharged on the reference
+    tree: a refuted obligation is then a regression even without a replayable input."""
     try:
         with open(os.path.join(HERE, "baseline_obligations.json"), encoding="utf-8") as fd:
             base = json.load(fd)
     except OSError:
         return False
-    return obligation in base.get(contract, [])
+    return base.get(contract, {}).get("status") == "proved"
 
 
 def _slug(s):
